@@ -207,6 +207,29 @@ struct Handle
 };
 static_assert(std::is_trivially_move_constructible_v<Handle> && !std::is_copy_constructible_v<Handle>);
 
+// Trivially copy/move constructible and trivially destructible, but with a user-provided assignment operator that
+// leaves a trace: a stamp from a monotonic clock. Copying the bytes instead of calling operator= (memmove of a run of
+// fields on reference assignment, byte swap on swap) carries the source's old stamp along with its value.
+inline uint32_t g_stamp_clock = 0;
+struct Stamped
+{
+    int32_t value;
+    uint32_t stamp;
+    explicit Stamped(int64_t k) noexcept : value(static_cast<int32_t>(k)), stamp(0) {}
+    Stamped(const Stamped&) = default;
+    Stamped& operator=(const Stamped& o) noexcept
+    {
+        value = o.value;
+        stamp = ++g_stamp_clock;
+        return *this;
+    }
+    friend bool operator==(const Stamped& a, const Stamped& b) { return a.value == b.value; }
+    friend bool operator<(const Stamped& a, const Stamped& b) { return a.value < b.value; }
+};
+static_assert(std::is_trivially_copy_constructible_v<Stamped> && std::is_trivially_move_constructible_v<Stamped> &&
+              std::is_trivially_destructible_v<Stamped> && !std::is_trivially_copy_assignable_v<Stamped> &&
+              !std::is_trivially_move_assignable_v<Stamped> && std::is_move_assignable_v<Stamped>);
+
 template <class T>
 inline constexpr bool is_tracked_v = std::is_same_v<T, Tracked> || std::is_same_v<T, TrackedMO>;
 
@@ -331,6 +354,12 @@ struct Val<Handle>
     static int64_t key(const Handle& v) { return v.fd; }
 };
 template <>
+struct Val<Stamped>
+{
+    static Stamped make(int64_t k) { return Stamped(k); }
+    static int64_t key(const Stamped& v) { return v.value; }
+};
+template <>
 struct Val<std::string>
 {
     // long enough to defeat SSO for most keys, short for some
@@ -355,7 +384,7 @@ struct Val<std::unique_ptr<int>>
 template <class T>
 int64_t norm_key(int64_t k)
 {
-    if constexpr (is_tracked_v<T> || std::is_same_v<T, std::unique_ptr<int>> || std::is_same_v<T, SelfRef> || std::is_same_v<T, Handle>)
+    if constexpr (is_tracked_v<T> || std::is_same_v<T, std::unique_ptr<int>> || std::is_same_v<T, SelfRef> || std::is_same_v<T, Handle> || std::is_same_v<T, Stamped>)
         return k;
     else
     {
